@@ -1,0 +1,72 @@
+//go:build verif
+
+// Contracts for the fvc verification-condition generator in /verif (comment-only file; it adds no
+// code to the package and is only seen with -tags verif).
+//
+// internal/memory is the in-process store behind the limiter (C13), the cache and the CSRF token store.
+// What is CHECKED here is what the engine can express about `data map[string]item`: the engine models the
+// key set of a map with struct values but not the stored struct values (a lookup yields an unconstrained
+// struct, an update writes only the key set). So the key-set part of the store contract is proved against the
+// real map, together with the lock discipline of the embedded RWMutex (every access of `data` inside one
+// critical section, lock released at exit) and run-time safety; the value/TTL part ("Get returns what the
+// last Set stored until the TTL has passed") stays an ASSUMED client-side contract
+// (zz_contracts_memory_verif.go in the client packages, for the limiter: middleware/limiter/zz_contracts_verif.go).
+
+package memory
+
+//@ props C13
+
+// lkStore: token for "the state guarded by the embedded RWMutex" (gives the lock obligations: not held at Lock,
+// held at Unlock, released at exit). The map itself is not havocked at Lock: the postconditions below are the
+// sequential (linearisation-point) specification, relative to the state at entry.
+//@ envghost lkStore int
+
+// Get: one read section, nothing is written. (Neither the value nor the comma-ok flag of a lookup in a map
+// with struct values is modelled by the engine, so nothing can be proved about the result.)
+//@ func (*Storage).Get
+//@   requires lock-free-on-entry: !held(s.RWMutex)
+//@   lock s.RWMutex protects lkStore
+//@   pure
+
+// Set: one write section; afterwards the key is in the map, no other key was added or removed.
+//@ func (*Storage).Set
+//@   requires lock-free-on-entry: !held(s.RWMutex)
+//@   lock s.RWMutex protects lkStore
+//@   requires map-made: s.data != nil
+//@   modifies heap(MD_string_memory_item)
+//@   atcall @sync.(*RWMutex).Lock: map-untouched-before-the-section: forallS(k, indom(s.data, k) <==> old(indom(s.data, k)))
+//@   atcall @sync.(*RWMutex).Unlock: written-inside-the-section: indom(s.data, key)
+//@   ensures key-stored: indom(s.data, key)
+//@   ensures other-keys-kept: forallS(k, k != key ==> (indom(s.data, k) <==> old(indom(s.data, k))))
+
+// Delete: one write section; afterwards the key is gone, no other key was added or removed.
+//@ func (*Storage).Delete
+//@   requires lock-free-on-entry: !held(s.RWMutex)
+//@   lock s.RWMutex protects lkStore
+//@   modifies heap(MD_string_memory_item)
+//@   atcall @sync.(*RWMutex).Lock: map-untouched-before-the-section: forallS(k, indom(s.data, k) <==> old(indom(s.data, k)))
+//@   atcall @sync.(*RWMutex).Unlock: deleted-inside-the-section: !indom(s.data, key)
+//@   ensures key-gone: !indom(s.data, key)
+//@   ensures other-keys-kept: forallS(k, k != key ==> (indom(s.data, k) <==> old(indom(s.data, k))))
+
+// Reset: a fresh empty map replaces the old one.
+//@ func (*Storage).Reset
+//@   requires lock-free-on-entry: !held(s.RWMutex)
+//@   lock s.RWMutex protects lkStore
+//@   modifies s.data
+//@   atcall @sync.(*RWMutex).Lock: map-not-yet-replaced: s.data == old(s.data)
+//@   atcall @sync.(*RWMutex).Unlock: replaced-inside-the-section: s.data != nil && forallS(k, !indom(s.data, k))
+//@   ensures empty: s.data != nil && forallS(k, !indom(s.data, k))
+
+// gc: the sweeper goroutine. Checked: lock discipline (the key set is collected in a read section, deletions
+// happen in one write section, the lock is free again after every round) and run-time safety of the
+// `expired` scratch slice. That it only deletes entries whose TTL has passed is not expressible (struct values).
+//@ func (*Storage).gc
+//@   requires lock-free-on-entry: !held(s.RWMutex)
+//@   lock s.RWMutex protects lkStore
+//@   loop 1
+//@     invariant lock-free-between-rounds: !held(s.RWMutex)
+//@   loop 2
+//@     invariant read-section: held(s.RWMutex)
+//@   loop 3
+//@     invariant write-section: held(s.RWMutex)
